@@ -467,19 +467,28 @@ func c15(r *core.Run) {
 			if !isNilCb(c) {
 				continue
 			}
+			// the failed-subscribe step may sit in a small helper QueryEvent calls on that edge
+			var at ssa.Instruction = c
+			inQev := fn == qev
+			if site := queryEventAbortHelper(p, fn); site != nil && site.Parent() == qev {
+				at, inQev = site, true
+				if ok, _ := edgeAvoids(c.Block(), isPub); !ok {
+					inQev = false
+				}
+			}
 			switch {
-			case fn == qev:
+			case inQev:
 				nDirect++
 				// on the subscribe-error edge, no publish reachable, return follows
 				onErr := false
-				for _, ed := range dominatingEdges(c) {
+				for _, ed := range dominatingEdges(at) {
 					d := describeCond(ed)
 					if strings.Contains(d, "ChanSubscribe") && strings.HasSuffix(d, "!=nil") {
 						onErr = true
 					}
 				}
-				noPub, _ := edgeAvoids(c.Block(), isPub)
-				noAdd, _ := edgeAvoids(c.Block(), func(in ssa.Instruction) bool {
+				noPub, _ := edgeAvoids(at.Block(), isPub)
+				noAdd, _ := edgeAvoids(at.Block(), func(in ssa.Instruction) bool {
 					cc, ok := in.(ssa.CallInstruction)
 					return ok && cc.Common().StaticCallee() != nil && strings.HasSuffix(cc.Common().StaticCallee().String(), "timerqueue.Queue).Add")
 				})
